@@ -61,10 +61,6 @@ class Grammar(object):
     pass
 
 
-def nsdict_prefix(prefix_of, uri):
-    return prefix_of.get(uri, uri)
-
-
 def duplicate_keys(path):
     """keys that occur twice in the dict displays of the four tables (source level; the import keeps the last)"""
     import ast
@@ -86,17 +82,32 @@ def duplicate_keys(path):
     return out
 
 
+def read_schemas(repo):
+    """the shipped schema files as DOM trees with their own prefix bindings: [(relative path, root, {prefix: URI})]"""
+    out = []
+    for rel in SCHEMAS:
+        root = minidom.parse(os.path.join(repo, rel)).documentElement
+        nsmap = {'xml': 'http://www.w3.org/XML/1998/namespace'}
+        for k, v in root.attributes.items():
+            if k.startswith('xmlns:'):
+                nsmap[k[6:]] = v
+        out.append((rel, root, nsmap))
+    return out
+
+
 def kids(e):
     return [c for c in e.childNodes if c.nodeType == 1]
 
 
 def translate(repo):
     G = Grammar()
+    if os.environ.get('C06_FORCE_TRANSLATE_ERROR'):
+        raise TranslateError('forced by C06_FORCE_TRANSLATE_ERROR (self-test of the fallback sweep)')
     sys_path_repo = repo
     if sys_path_repo not in sys.path:
         sys.path.insert(0, sys_path_repo)
-    from odf import namespaces
-    prefix_of = dict(namespaces.nsdict)                  # uri -> prefix  (display only)
+    prefix_of = {}          # uri -> prefix, from the xmlns declarations of the SCHEMA files only (display names / signatures;
+                            # identity is always the (namespace URI, local name) pair; odf.namespaces is not consulted)
     elems, attrs, defs, strs = Interner(), Interner(), Interner(), Interner()
     G.elems, G.attrs, G.defnames, G.strs = elems, attrs, defs, strs
 
@@ -111,7 +122,8 @@ def translate(repo):
         root = doc.documentElement
         if root.namespaceURI != RNGNS or root.localName != 'grammar':
             raise TranslateError('%s: root is not rng:grammar' % rel)
-        nsmap = {'xml': 'http://www.w3.org/XML/1998/namespace'}
+        nsmap = {'xml': 'http://www.w3.org/XML/1998/namespace'}           # reserved prefix (Namespaces in XML)
+        prefix_of.setdefault(nsmap['xml'], 'xml')
         for k, v in root.attributes.items():
             if k.startswith('xmlns:'):
                 nsmap[k[6:]] = v
@@ -223,17 +235,11 @@ def translate(repo):
     # the schema runs for ALL rows; what the real API does with the odd row then shows as a concrete call.
     # Lists, sets and frozensets of pairs are containers like tuples (sets are dumped sorted: membership only).
     G.malformed = []
-    names = {}
-    from odf import namespaces as _ns
-    for _k in dir(_ns):
-        if _k.endswith('NS') and isinstance(getattr(_ns, _k), str):
-            names.setdefault(getattr(_ns, _k), nsdict_prefix(prefix_of, getattr(_ns, _k)))
-
     def is_pair(x):
         return isinstance(x, (tuple, list)) and len(x) == 2 and all(isinstance(y, str) for y in x)
 
     def show(k):
-        return ('%s:%s' % (prefix_of.get(k[0], k[0]), k[1])) if is_pair(k) else repr(k)[:60]
+        return ('%s:%s' % (prefix_of[k[0]], k[1]) if k[0] in prefix_of else '{%s}%s' % tuple(k)) if is_pair(k) else repr(k)[:60]
 
     def pairs(v, table, key, none_ok):
         """well-formed entries of a container value"""
@@ -311,15 +317,20 @@ def translate(repo):
     G.factories = fac_rows
 
     # ------------------------------------------------------------------ (d) names, keywords
+    used = set()
+
     def disp(q):
+        """`prefix:local` with the schema's prefix; `{namespace URI}local` for a namespace the schemas do not declare (or
+        if two of their URIs shared a prefix) - unique by construction"""
         ns, l = q
-        if ns == '':
-            return l
-        return '%s:%s' % (prefix_of.get(ns, '{%s}' % ns), l)
+        n = l if ns == '' else ('%s:%s' % (prefix_of[ns], l) if ns in prefix_of else '{%s}%s' % (ns, l))
+        if n in used:
+            n = '{%s}%s' % (ns, l)
+        used.add(n)
+        return n
     G.elem_names = [disp(q) for q in elems.items]
+    used = set()
     G.attr_names = [disp(q) for q in attrs.items]
-    if len(set(G.elem_names)) != len(G.elem_names) or len(set(G.attr_names)) != len(G.attr_names):
-        raise TranslateError('display names are not unique (two namespaces share a prefix)')
     kws = Interner()
     for k in sorted(set([kw_of(q[1]) for q in attrs.items] + BOGUS_KEYWORDS), key=lambda k: (len(k.encode('utf-8')), k)):
         kws(k)         # ascending as numerals (shorter first, then bytewise): distinctness is a linear check in Lean
